@@ -62,9 +62,20 @@ class TlvHead(packet.Packet):
         formats.UInt16PayloadLenField('length', default=None),
     ]
 
+    def extract_padding(self, s):
+        ''' The value is bounded by the length field, anything after it
+        is the next extension item. '''
+        if self.length is None:
+            return (s, None)
+        return (s[:self.length], s[self.length:])
+
     def post_dissection(self, pkt):
         ''' Verify consistency of packet. '''
-        formats.verify_sized_item(self.length, self.payload)
+        if self.length is not None:
+            # following extension items show up as padding of this one
+            pad = self.getlayer(packet.Padding)
+            pad_len = len(pad.load) if pad is not None else 0
+            formats.verify_sized_item(self.length + pad_len, self.payload)
         packet.Packet.post_dissection(self, pkt)
 
 
